@@ -140,3 +140,39 @@ func printOptContract(v *Verifier, key string, f *ssa.Function) {
 	}
 	fmt.Printf("//@   ensures #ignored %s ==> result == util.ErrIgnoredOption\n\n", strings.Join(notAny, " && "))
 }
+
+// cmdOptdef prints `defines` contracts for option constructors (bootstrap helper, reviewed by hand)
+func cmdOptdef(args []string) int {
+	v, err := NewVerifier("/repo", "/verif")
+	if err != nil {
+		fmt.Fprintln(os.Stderr, err)
+		return 2
+	}
+	var keys []string
+	for k := range v.fnByKey {
+		keys = append(keys, k)
+	}
+	sort.Strings(keys)
+	for _, k := range keys {
+		f := v.fnByKey[k]
+		if f.Parent() != nil || f.Blocks == nil || f.Pkg == nil || f.Pkg.Pkg.Name() != args[0] || !strings.HasPrefix(f.Name(), "With") {
+			continue
+		}
+		if f.Signature.Results().Len() != 1 || !strings.HasSuffix(f.Signature.Results().At(0).Type().String(), "util.Option") {
+			continue
+		}
+		var ps, names []string
+		for _, p := range f.Params {
+			so, _ := sortOf(p.Type())
+			tn := map[Sort]string{SInt: "int", SBool: "bool", SBytes: "string", SSeqB: "[]string", SSeqI: "[]ref"}[so]
+			if so == SInt && !isInteger(p.Type()) {
+				tn = "ref"
+			}
+			ps = append(ps, p.Name()+" "+tn)
+			names = append(names, p.Name())
+		}
+		name := "opt_" + args[0] + "_" + f.Name()
+		fmt.Printf("//@ spec %s(%s) ref\n//@ func %s [C19]\n//@   modifies alloc()\n//@   defines result == %s(%s)\n\n", name, strings.Join(ps, ", "), f.Name(), name, strings.Join(names, ", "))
+	}
+	return 0
+}
